@@ -40,6 +40,22 @@ def program(serde):
     L.append("fn data_item<T: Clone + Debug + PartialEq + Open + High + Low + Close + Volume + Send + Sync + 'static>() {}")
     if serde:
         L.append('fn serde_surface<T: serde::Serialize + serde::de::DeserializeOwned>() {}')
+    NEED = {}
+    for t in ('SimpleMovingAverage', 'ExponentialMovingAverage', 'WeightedMovingAverage', 'StandardDeviation', 'MeanAbsoluteDeviation',
+              'RelativeStrengthIndex', 'MovingAverageConvergenceDivergence', 'PercentagePriceOscillator', 'EfficiencyRatio', 'BollingerBands', 'RateOfChange'):
+        NEED[t] = ('UserC', ['Close'])
+    NEED['Minimum'] = ('UserL', ['Low'])
+    NEED['Maximum'] = ('UserH', ['High'])
+    for t in ('FastStochastic', 'SlowStochastic', 'TrueRange', 'AverageTrueRange', 'KeltnerChannel', 'ChandelierExit', 'CommodityChannelIndex'):
+        NEED[t] = ('UserHLC', ['High', 'Low', 'Close'])
+    NEED['MoneyFlowIndex'] = ('UserHLCV', ['High', 'Low', 'Close', 'Volume'])
+    NEED['OnBalanceVolume'] = ('UserCV', ['Close', 'Volume'])
+    meth = {'Open': 'open', 'High': 'high', 'Low': 'low', 'Close': 'close', 'Volume': 'volume'}
+    for ty, trs in sorted(set((v[0], tuple(v[1])) for v in NEED.values())):
+        L.append('struct %s;' % ty)
+        for tr in trs:
+            L.append('impl %s for %s { fn %s(&self) -> f64 { 1.0 } }' % (tr, ty, meth[tr]))
+        L.append("fn next_%s<T: for<'a> Next<&'a %s>>() {}" % (ty.lower(), ty))
     L.append('struct UserBar;')
     for tr, m in (('Open', 'open'), ('High', 'high'), ('Low', 'low'), ('Close', 'close'), ('Volume', 'volume')):
         L.append('impl %s for UserBar { fn %s(&self) -> f64 { 1.0 } }' % (tr, m))
@@ -53,6 +69,7 @@ def program(serde):
         A('surface::<%s>();' % t, '%s: Clone + Debug + Display + Default + Reset + Send + Sync + Unpin + \'static' % t)
         A('next_bar::<%s>();' % t, '%s: Next<&DataItem>' % t)
         A('next_user::<%s>();' % t, '%s: Next<&T> for a user type implementing the price traits' % t)
+        A('next_%s::<%s>();' % (NEED[t][0].lower(), t), '%s: Next<&T> for a user type providing ONLY %s' % (t, ' + '.join(NEED[t][1])))
         if t not in NO_F64:
             A('next_scalar::<%s>();' % t, '%s: Next<f64>' % t)
         if t in PERIOD:
